@@ -55,6 +55,7 @@ func scenarioD8Reader() {
 			}
 		}
 	})
+	kafka.VerifSetGroupWire(false)
 	kafka.VerifSetGroupHandler(mock.Handle)
 	var dials int64
 	r := kafka.NewReader(kafka.ReaderConfig{
